@@ -17,7 +17,10 @@ GEN     Gen_Present: every string of length <= n over {a SP LF " ( ) ; \\ $ NUL 
 TV      harness `zone hostile`: structured families ($INCLUDE in all 128 case variants x whitespace with
         includes disabled, look-alikes, the real file system behind an include FS, self / mutual include,
         chains 1..12, $GENERATE expanding to $GENERATE, ranges around 65535/65536, malformed modifiers,
-        tokens / comments / parenthesised runs of 511..10^6 octets) observed under recover(); the histories
+        tokens / comments / parenthesised runs of 511..10^6 octets) observed under recover(); `zone prefixes`:
+        every prefix (cut after every character) of every record text of harness/lib/zoo (77 RR types, ~19.6 k
+        texts: as is, + newline, and at token boundaries + blank / parenthesis / comment / quote) through
+        NewZoneParser(...).Next() and dns.ReadRR under the same guards (all of them in both tiers: 3 s); the histories
         next -> rr | err | eof, open(path) of those runs and of a sample of the generated texts are
         validated by Trace_Zone's sticky-error machine (blocking), and wherever a family text spells
         abstract lines the per-line events are judged by Zone.tla (error due or not, records).
@@ -29,6 +32,7 @@ Mutants (checks/mutants/C07/*.diff, run like C06's; exit 1 with seed 1 unless no
   generate-nesting-not-propagated  sub-parser of $GENERATE may $GENERATE     families nested-generate (TLC confirms the text is a nested $GENERATE): ill-formed-accepted:nested-generate
   generate-range-guard-off-by-one  0-65536 accepted                          families generate: zone/hostile:gen>65536; Gen_Zone "gen"/shapes in C06: zone/accepts:generate:range>65536
   parse-error-not-sticky           Next goes on after an error               harness (not-sticky) + Trace_Zone (zone/sticky:next:rr, :next:err)
+  (seeded C07-2: LOC altitude parser indexes an empty token at end of input -> prefixes: zone/hostile:panic:prefix:LOC)
   lexer-error-not-sticky           zlexer.Next goes on after l.err           NOT caught (exit 0) and cannot be: at the ZoneParser API the parser's own parseErr is sticky one
                                                                              level up; the only path that swallows a lexer error ($INCLUDE f ")", the known finding) gets
                                                                              an error with this mutant, i.e. it behaves better than the pinned code there.
@@ -102,6 +106,15 @@ def shapes(ctx, binp):
     vp.absorb(ctx, s)
 
 
+def prefixes(ctx, binp):
+    """Every truncation point of every record text of harness/lib/zoo (~80 RR types), see cmd/zone/prefixes.go."""
+    out = os.path.join(ctx.out, "prefixes.ndjson")
+    s = ctx.run_json(binp, ["prefixes", out], timeout=3000)
+    vp.absorb(ctx, s)
+    validate(ctx, out, "record prefix")
+    return s
+
+
 def families(ctx, binp):
     out = os.path.join(ctx.out, "families.ndjson")
     s = ctx.run_json(binp, ["hostile", out], timeout=3000)
@@ -121,6 +134,7 @@ def run(ctx):
             lambda: texts(ctx, binp, 5, 1, [0]),
             lambda: shapes(ctx, binp),
             lambda: families(ctx, binp),
+            lambda: prefixes(ctx, binp),
         ])
     else:
         vp.parallel([
@@ -128,6 +142,7 @@ def run(ctx):
             lambda: ctx.tlc("MC_Zone", consts=dict(MaxLines=3, ShapeSet=SAFETY_SHAPES, PolSet="{0, 15}"), workers=4, timeout=3000),
             lambda: shapes(ctx, binp),
             lambda: families(ctx, binp),
+            lambda: prefixes(ctx, binp),
         ])
         texts(ctx, binp, 6, 11, range(11), par=11)
         texts(ctx, binp, 7, 121, rnd.sample(range(121), 12), par=12)
@@ -152,7 +167,7 @@ def rerun(ctx, binp, case):
         vp.write_ndjson(p, [dict(case, kind="text")])
         return ctx.run_json(binp, ["replay", p])["mismatches"]
     out = os.path.join(ctx.out, "families-again.ndjson")
-    s = ctx.run_json(binp, ["hostile", out])
+    s = ctx.run_json(binp, ["prefixes" if str(case.get("family", "")).startswith("prefix:") else "hostile", out])
     ms = list(s["mismatches"])
     sub = vp.Ctx.__new__(vp.Ctx)
     sub.__dict__.update(ctx.__dict__)
